@@ -84,15 +84,19 @@ class Runner:
                 return f"x{i + 1}"
         return "?foreign"
 
-    def name_below(self, ret, nm: str):
-        """not yet named nodes below a returned node are called after their position (Legacy.tla: KidName)"""
+    def name_below(self, ret, nm: str, seen=None):
+        """not yet named nodes below a returned node are called after their position on the first path (depth first,
+        declaration order) from it (Legacy.tla: KidName / FindPath)"""
+        seen = set() if seen is None else seen
+        if id(ret) in seen:
+            return
+        seen.add(id(ret))
         for c, f, i in ret.get_child_nodes_with_field():
-            if self.name(c) != "?foreign":
-                continue
             cn = f"{nm}/{f.name}{'' if i is None else i}"
-            self.paths[id(c)] = cn
-            self.keep.append(c)
-            self.name_below(c, cn)
+            if self.name(c) == "?foreign":
+                self.paths[id(c)] = cn
+                self.keep.append(c)
+            self.name_below(c, cn, seen)
 
     def canon(self, h: int) -> int:
         if not h:
@@ -347,6 +351,8 @@ class Runner:
     def probe_digest(self, op) -> str:
         """the automatic id the library computes for a create operation's arguments, read off a detached probe
         (the library is its own digest oracle; the probe touches nothing)"""
+        if op["op"] in TRANSFORM_OPS and op["mode"] == "fresh":
+            op = _O("create", "LLeaf", atom=2, mode="plain")       # what the `fresh` rule builds
         if op["op"] != "create":
             return ""
         try:
@@ -654,7 +660,7 @@ def monitor(chk, lines, name="monitor"):
     return {i: (info[0], set(info[1])) for i, info in trace_shards(chk, "Trace_Legacy", lines, name).items()}
 
 
-MACHINE_OPS = ALLOPS
+MACHINE_OPS = ALLOPS | {"texec"}
 
 
 def machine(chk, lines, name="machine"):
